@@ -4,7 +4,7 @@ from .. import env, attach, gen, flow
 from ..mon_output import mon_value_accounting
 
 PROPERTY = 'C04'
-CASES = {'quick': 168, 'thorough': 3000}
+CASES = {'quick': 504, 'thorough': 4032}
 BUDGET_S = {'quick': 200, 'thorough': 1800}
 SUITE_UNDER_MONITORS = True      # thorough tier: the repository's own tests are an extra workload under the passive monitors
 RULE = ('case = one random portfolio mixing periodic, coarse-frequency, scaled and structured assets, order books (some orders outside the '
@@ -14,7 +14,7 @@ RULE = ('case = one random portfolio mixing periodic, coarse-frequency, scaled a
         'return: sum(DCF) = value = summary value; per asset sum_t DCF = -c_asset . x[range_asset]. Non-trivial: >=1 asset with |cash flow|>1e-6; '
         'distinct = distinct spec hashes.')
 ASSUMPTIONS = ['tolerance 1e-6*(1+|value|+sum|DCF|)', 'unsolved / inaccurate results make no claim (counted)']
-MIN_NONVACUOUS = {'quick': {'value.asset_dcf_is_own_cost': 300, 'value.total_is_sum_of_dcf': 100},
+MIN_NONVACUOUS = {'quick': {'value.asset_dcf_is_own_cost': 750, 'value.total_is_sum_of_dcf': 250},
                   'thorough': {'value.asset_dcf_is_own_cost': 6000, 'value.total_is_sum_of_dcf': 2000}}
 KINDS = ('contract', 'transport', 'storage', 'multi', 'orderbook', 'orderbook', 'plant', 'chp', 'structured', 'scaled', 'scaled', 'coarse', 'coarse',
          'periodic', 'periodic', 'storage_blocks', 'storage_mip')
